@@ -900,3 +900,263 @@ Proof.
         -- eapply add_tail_inv; [eapply Inv_tw; [exact I|exact T5]|exact L5|exact H].
   - eapply add_tail_inv; [eapply Inv_tw; [exact I|exact T3]|exact L3|exact H].
 Qed.
+
+(* freeChainAt over a duplicate-free chain touches the slots of that chain only *)
+Lemma free_chain_at_spec : forall N fuel l i s s',
+  chain_of s i l -> NoDup l -> free_chain_at N fuel i s = Ok s' ->
+  ents s' = ents s /\ forall x, ~ In x l -> sls s' x = sls s x.
+Proof.
+  induction fuel; intros l i s s' C ND H; cbn [free_chain_at] in H.
+  - destruct (i <? 0); [|discriminate]. inversion H; subst. auto.
+  - destruct (i <? 0) eqn:I0; [inversion H; subst; auto|].
+    destruct l as [|x r]; cbn in C; [lia|]. destruct C as (E & P & C). subst x.
+    destruct (negb ((0 <=? i) && (i <? N))); [discriminate|].
+    apply bind_ok in H. destruct H as [s1 [H1 H2]].
+    apply push_free_sls in H1. destruct H1 as [S1 E1]. st_simp.
+    inversion ND as [|? ? NI ND']; subst.
+    assert (C1 : chain_of s1 (s_next (sls s i)) r).
+    { eapply chain_of_frame; [|exact C]. intros y Hy. rewrite S1. rewrite upd_other; [reflexivity|].
+      intros ->. contradiction. }
+    destruct (IHfuel r _ s1 s' C1 ND' H2) as [E2 O2]. split; [congruence|].
+    intros y Hy. rewrite O2 by (intros Hc; apply Hy; right; exact Hc).
+    rewrite S1. apply upd_other. intros ->. apply Hy. left; reflexivity.
+Qed.
+
+(* a further cell for an already loaded entry: the entry is dropped from the index *)
+Lemma loaded_dup_inv : forall N f s s',
+  Inv N s -> e_state (ents s f) = LeLoaded ->
+  free_entry N f (set_ent s f (e_set_state (ents s f) LeCorrupted)) = Ok s' -> Inv N s'.
+Proof.
+  intros N f s s' I L H.
+  pose proof (iv_ent N s I f) as Ef. unfold ent_ok in Ef. rewrite L in Ef.
+  destruct (iv_chain N s I f L) as [l G].
+  unfold free_entry in H. st_simp. rewrite upd_same in H. cbn [a_writing e_set_state] in H. rewrite Ef in H.
+  unfold free_chain in H. st_simp. rewrite upd_same in H.
+  apply bind_ok in H. destruct H as [s1 [H1 H2]]. inversion H2; subst s'; clear H2.
+  set (s0 := set_ent (set_ent s f (e_set_state (ents s f) LeCorrupted)) f
+                 (e_set_writing (e_set_state (ents s f) LeCorrupted) true)) in *.
+  assert (F1 : ents s1 = ents s0 /\ forall x, ~ In x l -> sls s1 x = sls s x).
+  { destruct (a_empty (e_set_writing (e_set_state (ents s f) LeCorrupted) true)).
+    - inversion H1; subst s1. split; [reflexivity|]. intros; reflexivity.
+    - destruct G as (C&ND&_&_).
+      assert (C0 : chain_of s0 (a_start (e_set_writing (e_set_state (ents s f) LeCorrupted) true)) l).
+      { eapply chain_of_frame; [|exact C]. intros; reflexivity. }
+      destruct (free_chain_at_spec N _ l _ s0 s1 C0 ND H1) as [A B]. split; [exact A|exact B]. }
+  destruct F1 as [E1 O1].
+  apply (Inv_step N s _ f (fun x => In x l)); st_simp; auto.
+  - intros g Hg. rewrite upd_other by assumption. rewrite E1. subst s0. st_simp.
+    rewrite upd_other by assumption. rewrite upd_other by assumption. reflexivity.
+  - intros x. destruct (in_dec Z.eq_dec x l) as [Hx|Hx]; [left; exact Hx|right].
+    rewrite O1 by assumption. apply core_le_refl.
+  - intros g l2 x Hg Lg G2 X2 X1. eapply (iv_disj N s I f g); eauto.
+  - rewrite upd_same. rewrite E1. subst s0. st_simp. rewrite upd_same. unfold ent_ok. cbn. auto.
+  - unfold loaded. st_simp. rewrite upd_same. rewrite E1. subst s0. st_simp. rewrite upd_same. cbn. discriminate.
+Qed.
+
+Lemma start_new_entry_inv : forall N pos f i h m s s',
+  Inv N s -> e_state (ents s f) = LeEmpty -> start_new_entry N pos f i h m s = Ok s' -> Inv N s'.
+Proof.
+  intros N pos f i h m s s' I L H.
+  pose proof (iv_ent N s I f) as Ef. unfold ent_ok in Ef. rewrite L in Ef.
+  unfold start_new_entry in H. rewrite Ef in H. cbn [a_writing a_wtbf a_empty entry0 a_k0 a_k1 negb andb orb Z.eqb] in H.
+  cbv zeta in H. apply bind_ok in H. destruct H as [s1 [H1 H]]. inversion H1; subst s1; clear H1.
+  st_simp. rewrite upd_same in H. cbn [a_empty e_set_writing a_k0 a_k1 entry0 Z.eqb andb negb] in H.
+  match type of H with context [if ?c then Abort else _] => destruct c end; [discriminate|].
+  apply bind_ok in H. destruct H as [s3 [H3 H4]].
+  match type of H4 with context [if ?c then Abort else _] => destruct c end; [discriminate|]. inversion H4; subst s'; clear H4.
+  eapply add_slot_to_entry_inv; [| |exact H3].
+  - apply (Inv_keep N s _ f I); st_simp.
+    + intros g Hg. repeat rewrite upd_other by assumption. reflexivity.
+    + intros; apply core_le_refl.
+    + repeat rewrite upd_same. unfold ent_ok. cbn. reflexivity.
+    + repeat rewrite upd_same. cbn. discriminate.
+  - st_simp. repeat rewrite upd_same. reflexivity.
+Qed.
+
+Lemma quiet_inc : forall s s', ents s' = ents s -> sls s' = sls s -> quiet s s'.
+Proof. intros s s' E S. split; [exact E|]. intros x; rewrite S; apply core_le_refl. Qed.
+
+Lemma use_new_slot_inv : forall N pos i h m s s',
+  Inv N s -> use_new_slot N pos i h m s = Ok s' -> Inv N s'.
+Proof.
+  intros N pos i h m s s' I H. unfold use_new_slot in H. cbv zeta in H.
+  match type of H with context [if negb ?c then Abort else _] => destruct (negb c) end; [discriminate|].
+  set (f := fileno_of N (h_k0 h) (h_k1 h)) in *.
+  destruct (e_state (ents s f)) eqn:St.
+  - eapply start_new_entry_inv; eauto.
+  - destruct (negb (a_writing (ents s f))); [discriminate|].
+    match type of H with context [if ?c then add_slot_to_entry _ _ _ _ _ _ _ else _] => destruct c end.
+    + eapply add_slot_to_entry_inv; eauto.
+    + apply bind_ok in H. destruct H as [s1 [H1 H]]. apply bind_ok in H. destruct H as [s2 [H2 H3]].
+      inversion H3; subst s'; clear H3.
+      apply (Inv_quiet N s2); [|apply quiet_inc; reflexivity].
+      apply (Inv_quiet N s1); [|eapply free_unused_slot_quiet; eauto].
+      eapply free_bad_entry_inv; [exact I| |exact H1]. rewrite St; discriminate.
+  - apply bind_ok in H. destruct H as [s1 [H1 H]]. apply bind_ok in H. destruct H as [s2 [H2 H3]].
+    inversion H3; subst s'; clear H3.
+    apply (Inv_quiet N s2); [|apply quiet_inc; reflexivity].
+    apply (Inv_quiet N s1); [|eapply free_unused_slot_quiet; eauto].
+    eapply loaded_dup_inv; eauto.
+  - eapply Inv_quiet; [exact I|eapply free_unused_slot_quiet; eauto].
+  - eapply Inv_quiet; [exact I|eapply free_unused_slot_quiet; eauto].
+Qed.
+
+Lemma load_one_slot_inv : forall ssz N pos d s s',
+  Inv N s -> load_one_slot ssz N pos d s = Ok s' -> Inv N s'.
+Proof.
+  intros ssz N pos d s s' I H. unfold load_one_slot in H. cbv zeta in H.
+  assert (I1 : Inv N (inc_scan s)) by (eapply Inv_quiet; [exact I|apply quiet_inc; reflexivity]).
+  destruct d as [|h m].
+  - eapply Inv_quiet; [exact I1|eapply free_unused_slot_quiet; eauto].
+  - destruct (hdr_empty h); [eapply Inv_quiet; [exact I1|eapply free_unused_slot_quiet; eauto]|].
+    destruct (negb (hdr_sane ssz N h)); [eapply Inv_quiet; [exact I1|eapply free_unused_slot_quiet; eauto]|].
+    eapply use_new_slot_inv; eauto.
+Qed.
+
+Lemma load_all_inv : forall ssz N img pos s s', Inv N s -> load_all ssz N pos img s = Ok s' -> Inv N s'.
+Proof.
+  induction img as [|d r IH]; intros pos s s' I H; cbn [load_all] in H.
+  - inversion H; subst; exact I.
+  - apply bind_ok in H. destruct H as [s1 [H1 H2]]. eapply IH; [|exact H2]. eapply load_one_slot_inv; eauto.
+Qed.
+
+Lemma for_range_inv : forall N step, (forall k s s', Inv N s -> step k s = Ok s' -> Inv N s') ->
+  forall n k s s', Inv N s -> for_range n k step s = Ok s' -> Inv N s'.
+Proof.
+  intros N step Hs. induction n; intros k s s' I H; cbn [for_range] in H.
+  - inversion H; subst; exact I.
+  - apply bind_ok in H. destruct H as [s1 [H1 H2]]. eapply IHn; [|exact H2]. eapply Hs; eauto.
+Qed.
+
+Lemma validate_one_entry_inv : forall N f s s', Inv N s -> validate_one_entry N f s = Ok s' -> Inv N s'.
+Proof.
+  intros N f s s' I H. unfold validate_one_entry in H. cbv zeta in H.
+  assert (I1 : Inv N (inc_valid s)) by (eapply Inv_quiet; [exact I|apply quiet_inc; reflexivity]).
+  destruct (e_state (ents (inc_valid s) f)) eqn:St; try (inversion H; subst; exact I1).
+  eapply finalize_or_free_inv; [exact I1| |exact H]. rewrite St; discriminate.
+Qed.
+
+Lemma validate_one_slot_inv : forall N i s s', Inv N s -> validate_one_slot N i s = Ok s' -> Inv N s'.
+Proof.
+  intros N i s s' I H. unfold validate_one_slot in H. cbv zeta in H.
+  destruct (negb (ls_ok N N i)); [discriminate|].
+  match type of H with context [if ?c then Ok _ else _] => destruct c end; [|discriminate].
+  inversion H; subst. eapply Inv_quiet; [exact I|apply quiet_inc; reflexivity].
+Qed.
+
+Lemma Inv_st0 : forall N, Inv N st0.
+Proof.
+  intros N. constructor.
+  - intros f. unfold ent_ok. cbn. reflexivity.
+  - intros f L. unfold loaded in L. cbn in L. discriminate.
+  - intros f g l1 l2 x _ L. unfold loaded in L. cbn in L. discriminate.
+Qed.
+
+Lemma rebuild_inv : forall ssz dbl img s, rebuild ssz dbl img = Ok s -> Inv (Z.of_nat (length img)) s.
+Proof.
+  intros ssz dbl img s H. unfold rebuild in H. cbv zeta in H.
+  apply bind_ok in H. destruct H as [s1 [H1 H]]. apply bind_ok in H. destruct H as [s2 [H2 H3]].
+  assert (I1 : Inv (Z.of_nat (length img)) s1) by (eapply load_all_inv; [apply Inv_st0|exact H1]).
+  assert (I2 : Inv (Z.of_nat (length img)) s2).
+  { eapply for_range_inv; [|exact I1|exact H2]. intros; eapply validate_one_entry_inv; eauto. }
+  destruct dbl; [|inversion H3; subst; exact I2].
+  eapply for_range_inv; [|exact I2|exact H3]. intros; eapply validate_one_slot_inv; eauto.
+Qed.
+
+Lemma readable_loaded : forall e, ent_ok e -> readable e = true -> e_state e = LeLoaded.
+Proof.
+  intros e Ok R. unfold readable in R. unfold ent_ok in Ok.
+  destruct (e_state e); try reflexivity.
+  - subst e. cbn in R. discriminate.
+  - rewrite Ok in R. cbn in R. discriminate.
+  - destruct Ok as [_ Em]. rewrite Em in R. cbn in R. rewrite andb_false_r in R. discriminate.
+  - contradiction.
+Qed.
+
+(* MAIN: whatever the image, every entry the finished rebuild leaves readable has a chain (the slots reached
+   from its first slot through the index's links) that ends, visits no slot twice, consists of loaded
+   (mapped, finalized) slots of the db with positive payload sizes adding up to the bytes recorded for the
+   entry, and shares no slot with the chain of any other readable entry. *)
+Theorem readable_chains_sound : forall slotSize dbl img s,
+  rebuild slotSize dbl img = Ok s ->
+  (forall f, readable (ents s f) = true ->
+     exists l, chain_of s (a_start (ents s f)) l /\ NoDup l /\
+       (forall x, In x l -> 0 <= x < Z.of_nat (length img) /\ s_mapped (sls s x) = true /\
+                             s_final (sls s x) = true /\ 0 < s_size (sls s x)) /\
+       sumsz s l = e_size (ents s f)) /\
+  (forall f g l1 l2 x, f <> g -> readable (ents s f) = true -> readable (ents s g) = true ->
+     chain_of s (a_start (ents s f)) l1 -> chain_of s (a_start (ents s g)) l2 -> In x l1 -> In x l2 -> False).
+Proof.
+  intros ssz dbl img s H. apply rebuild_inv in H. split.
+  - intros f R. apply readable_loaded in R; [|apply (iv_ent _ s H)].
+    destruct (iv_chain _ s H f R) as [l (C&ND&M&S)]. exists l. auto.
+  - intros f g l1 l2 x Hne Rf Rg C1 C2 X1 X2.
+    apply readable_loaded in Rf; [|apply (iv_ent _ s H)]. apply readable_loaded in Rg; [|apply (iv_ent _ s H)].
+    destruct (iv_chain _ s H f Rf) as [k1 G1]. destruct (iv_chain _ s H g Rg) as [k2 G2].
+    assert (l1 = k1) by (destruct G1 as (C&_); eapply chain_of_det; eauto).
+    assert (l2 = k2) by (destruct G2 as (C&_); eapply chain_of_det; eauto). subst.
+    eapply (iv_disj _ s H f g); eauto.
+Qed.
+
+(* ---- the clauses of C57 separately ---- *)
+Lemma readable_chain_acyclic_loaded : forall slotSize dbl img s f,
+  rebuild slotSize dbl img = Ok s -> readable (ents s f) = true ->
+  exists l, chain_of s (a_start (ents s f)) l /\ NoDup l /\
+    forall x, In x l -> 0 <= x < Z.of_nat (length img) /\ s_mapped (sls s x) = true /\
+                        s_final (sls s x) = true /\ 0 < s_size (sls s x).
+Proof.
+  intros ssz dbl img s f H R. destruct (readable_chains_sound ssz dbl img s H) as [A _].
+  destruct (A f R) as [l (C&ND&M&_)]. exists l. auto.
+Qed.
+
+Lemma readable_chains_disjoint : forall slotSize dbl img s f g l1 l2 x,
+  rebuild slotSize dbl img = Ok s -> f <> g ->
+  readable (ents s f) = true -> readable (ents s g) = true ->
+  chain_of s (a_start (ents s f)) l1 -> chain_of s (a_start (ents s g)) l2 -> In x l1 -> In x l2 -> False.
+Proof.
+  intros ssz dbl img s f g l1 l2 x H. destruct (readable_chains_sound ssz dbl img s H) as [_ B].
+  intros; eapply B; eauto.
+Qed.
+
+Lemma readable_chain_sizes_partial : forall slotSize dbl img s f l,
+  rebuild slotSize dbl img = Ok s -> readable (ents s f) = true ->
+  chain_of s (a_start (ents s f)) l -> sumsz s l = e_size (ents s f).
+Proof.
+  intros ssz dbl img s f l H R C. destruct (readable_chains_sound ssz dbl img s H) as [A _].
+  destruct (A f R) as [l0 (C0&_&_&S)]. assert (l = l0) by (eapply chain_of_det; eauto). subst. exact S.
+Qed.
+
+(* no entry is left locked for writing, whatever the image *)
+Lemma nothing_left_locked : forall slotSize dbl img s f,
+  rebuild slotSize dbl img = Ok s -> e_state (ents s f) <> LeLoading ->  a_writing (ents s f) = false.
+Proof.
+  intros ssz dbl img s f H NL. apply rebuild_inv in H. pose proof (iv_ent _ s H f) as E. unfold ent_ok in E.
+  destruct (e_state (ents s f)); try tauto.
+  - rewrite E. reflexivity.
+  - contradiction.
+Qed.
+
+(* an intact single-cell entry in an otherwise empty db of seven slots is indexed (hypotheses are satisfiable) *)
+Lemma plain_entry_example :
+  holds_after 131072 false
+    [dE; dE; dE; DHdr (mkHdr 5 7 200 200 1 3 (-1)) (MOk true 5 7 0 false 75); dE; dE; dE] (fun s =>
+    readable (ents s 5) = true /\ chain_of s (a_start (ents s 5)) [3] /\ sumsz s [3] = 200 /\
+    a_swapsz (ents s 5) = 200).
+Proof.
+  unfold holds_after. set (r := rebuild _ _ _). vm_compute in r. subst r. cbv beta iota.
+  repeat split; cbn; lia.
+Qed.
+
+(* two intact two-cell entries: both indexed, chains disjoint *)
+Lemma two_entries_example :
+  holds_after 131072 false
+    [DHdr (mkHdr 1 0 300 100 1 0 2) (MOk true 1 0 0 false 75);
+     DHdr (mkHdr 2 0 0 50 4 1 3) (MOk true 2 0 0 false 75);
+     DHdr (mkHdr 1 0 0 200 1 0 (-1)) MBad;
+     DHdr (mkHdr 2 0 0 60 4 1 (-1)) MBad; dE; dE; dE] (fun s =>
+    readable (ents s 1) = true /\ chain_of s (a_start (ents s 1)) [0; 2] /\
+    readable (ents s 2) = true /\ chain_of s (a_start (ents s 2)) [1; 3] /\ a_swapsz (ents s 2) = 110).
+Proof.
+  unfold holds_after. set (r := rebuild _ _ _). vm_compute in r. subst r. cbv beta iota.
+  repeat split; cbn; lia.
+Qed.
